@@ -61,7 +61,7 @@ pub fn helix_points(p: [f64; 6], ts: &[f64]) -> Vec<SpacePoint> {
     ts.iter().map(|t| sp_xyz(p[3] * (t + p[4]).cos() + p[0], p[3] * (t + p[4]).sin() + p[1], p[5] / (2.0 * PI) * t + p[2])).collect()
 }
 
-pub const FAMILIES: [&str; 16] = [
+pub const FAMILIES: [&str; 19] = [
     "helix with special pitch",
     "collinear ray through the origin",
     "collinear on the x axis",
@@ -78,6 +78,9 @@ pub const FAMILIES: [&str; 16] = [
     "physical track with duplicates",
     "vertical line perturbed",
     "inner clump plus one far hit",
+    "equal radii, two or three distinct points",
+    "two or three distinct radii",
+    "few distinct points repeated",
 ];
 pub const PITCHES: [f64; 27] = [0.0, 5e-324, -5e-324, 1e-310, -1e-310, 1e-300, 1e-17, -1e-17, 1e-16, 2.2e-16, -2.2e-16, 1e-15, 1e-12, 1e-9, 1e-6, 1e-4, 1e-3, 1e-2, 0.1, -0.1, 0.5, 1.0, -1.0, 3.0, 10.0, 100.0, -100.0];
 
@@ -180,6 +183,26 @@ pub fn family(rng: &mut Rng, fam: usize, n: usize) -> Vec<SpacePoint> {
             }
             t.truncate(n.max(13));
             t
+        }
+        16 => {
+            // the same radius everywhere, only two or three distinct (phi, z) positions
+            let r = rng.range(0.06, 0.24);
+            let k = 2 + rng.usize(2);
+            let base: Vec<SpacePoint> = (0..k).map(|j| sp(r, rng.range(-PI, PI) * if j == 0 { 1.0 } else { 0.0 } + 0.3 + 0.05 * j as f64, z0 + 0.01 * j as f64)).collect();
+            (0..n).map(|i| base[i % k]).collect()
+        }
+        17 => {
+            // many points, but only two or three distinct radii (hits of one or two time bins)
+            let k = 2 + rng.usize(2);
+            let radii: Vec<f64> = (0..k).map(|j| 0.12 + 0.004 * j as f64 + rng.range(0.0, 0.001)).collect();
+            let phi = rng.range(-PI, PI);
+            (0..n).map(|i| sp(radii[i % k], phi + 0.02 * (i / k) as f64, z0 + 0.015 * (i / k) as f64)).collect()
+        }
+        18 => {
+            // three to five distinct points, each repeated
+            let k = 3 + rng.usize(3);
+            let base: Vec<SpacePoint> = (0..k).map(|_| sp(rng.range(0.06, 0.24), rng.range(-0.3, 0.3), z0 + rng.range(-0.05, 0.05))).collect();
+            (0..n).map(|_| base[rng.usize(k)]).collect()
         }
         14 => {
             // hits stacked in z whose x-y scatter is 1e-16..1e-6 m: the fitted helix is extremely thin
